@@ -587,6 +587,20 @@ class RangeEngine(Engine):
         for (a, v, _) in s.decisions:
             if isinstance(v, int):
                 fs += self.P.cmp_fact(a, bool(v))
+            # a `match` on an integer value: the arm taken fixes the value, the fall-through arm excludes the listed ones
+            if isinstance(a, tuple) and not (a[0] == 'term' and a[1] in ('Lt', 'Le', 'Gt', 'Ge', 'Eq', 'Ne', 'discr', 'is_some', 'is_ok', 'in_range', 'Not')):
+                ty = self.types.get(key(a))
+                if ty in INT_W or (isinstance(a, tuple) and a[0] == 'sym' and ty is None and isinstance(v, tuple)):
+                    la = self.P.lin(a)
+                    if la is not None:
+                        if isinstance(v, int) and ty in INT_W:
+                            fs += [la.add(Lin(v), -1), Lin(v).add(la, -1)]
+                        elif isinstance(v, tuple) and v[0] == 'ne' and ty in INT_W:
+                            lo = self.P.lo(la)
+                            if lo is not None:
+                                while lo in v[1]:
+                                    lo += 1
+                                fs.append(la.add(Lin(lo), -1))
         for e in s.events:
             if e[0] == 'fact':
                 fs.append(e[1])
